@@ -25,3 +25,29 @@ fn last_lsn_follows_appends_beyond_block_zero() {
     }
     std::mem::forget(wal);
 }
+
+#[test]
+fn log_that_left_block_zero_recovers_after_a_crash() {
+    use crate::{DBConfig, Database};
+    let dir = tempfile::TempDir::new().unwrap();
+    let path = dir.path().join("t.db");
+    let db = Database::create(&path, DBConfig::default()).unwrap();
+    db.execute("CREATE TABLE a (id BIGINT, v INT)").unwrap();
+    db.execute("CREATE TABLE b (id BIGINT, v INT)").unwrap();
+    db.flush().unwrap();
+    // enough small commits since the checkpoint for the log to spill out of block zero (two tables: one row may not be
+    // updated / re-versioned more than 255 times on this tree)
+    for i in 0..150 {
+        db.execute(&format!("INSERT INTO {} VALUES ({i}, {i})", if i % 2 == 0 { "a" } else { "b" })).unwrap();
+    }
+    let img = tempfile::TempDir::new().unwrap();
+    std::fs::copy(&path, img.path().join("t.db")).unwrap();
+    std::fs::copy(dir.path().join("axmos.log"), img.path().join("axmos.log")).unwrap();
+    let re = Database::open(img.path().join("t.db"), DBConfig::default());
+    assert!(re.is_ok(), "open fails after a crash with a log that extends beyond block zero: {:?}", re.err().map(|e| e.to_string()));
+    let re = re.unwrap();
+    let na = re.execute("SELECT id FROM a").unwrap().into_rows().unwrap().len();
+    let nb = re.execute("SELECT id FROM b").unwrap().into_rows().unwrap().len();
+    assert_eq!((na, nb), (75, 75), "acknowledged rows are missing after the crash");
+    std::mem::forget(db);
+}
